@@ -86,7 +86,7 @@ static long yv_fail_at;		/* if >0: the yv_fail_at-th request inside the library 
 static int yv_fail_sticky;	/* all later requests fail too */
 
 /* small open hash set of library-owned block addresses */
-#define YV_LSZ (1 << 16)
+#define YV_LSZ (1 << 21)	/* results with hundreds of thousands of nodes allocated by the default allocator must fit */
 static void *yv_lset[YV_LSZ];
 static int yv_lset_find (void *p, int ins)
 {
